@@ -12,12 +12,14 @@ import (
 	"pgregory.net/rapid"
 
 	"verifharness/bgen"
+	"verifharness/fc"
 	"verifharness/h"
 	"verifharness/hostile"
 	ref "verifharness/ref/bech32"
 )
 
 func TestMain(m *testing.M) {
+	h.FirstCallsChild(fc.Bech32()) // never returns in a first-call child process
 	if err := ref.SelfCheck(); err != nil {
 		fmt.Println("VERIF-INFRA reference self-check failed:", err)
 		panic(err)
@@ -867,3 +869,6 @@ func TestWeight2Exhaustive(t *testing.T) {
 func FuzzGenE2E(f *testing.F) {
 	h.FuzzSub(f, h.Sub[e2eCase]{Prop: "C16", Name: "e2e", Gen: genE2E, Check: checkE2E})
 }
+
+// which public entry point is called first in a process (and by how many goroutines at once)
+func TestFirstCalls(t *testing.T) { h.FirstCallsSub(t, "C16", fc.Bech32(), 6) }
